@@ -787,9 +787,9 @@ def classify_verdict(spec, inst, ref, real_out):
 def _norm_msg(msg):
     import re
     s = (msg or "").splitlines()[0] if msg else ""
-    s = re.sub(r"'[^']*'", "'_'", s)
+    s = re.sub(r"'[^']*'", "_", s)
     s = re.sub(r"-?\d+", "N", s)
-    return s[:70]
+    return re.sub(r"[^A-Za-z_]+", "-", s).strip("-")[:60]
 
 
 # ------------------------------------------------------------------ work: generated definitions
